@@ -134,6 +134,51 @@ theorem negative_entry_count (c : Cfg) (count : Int) (h32 : isInt32 count) (h : 
   refine FailsWith.after_nil (reads_int32 c count h32) ?_
   simp only [h, if_true]; exact FailsWith.fail _
 
+/-- a negative property count in a column slice (repair F21: the reader agrees with the skipper) -/
+theorem negative_property_count (c : Cfg) (va : VA) (hv : va.Fits c) (cnt : Int) (h32 : isInt32 cnt) (h : cnt < 0) :
+    FailsWith (readCS c) (sec 4 ++ Spec.va c va ++ le c cnt) .invalidSize ∧
+    FailsWith (skipCS c) (sec 4 ++ Spec.va c va ++ le c cnt) .invalidSize := by
+  constructor
+  · unfold readCS; simp only [P.bind_def]
+    rw [List.append_assoc]
+    refine FailsWith.after (reads_secExpect 4 (by omega)) ?_
+    refine FailsWith.after (reads_va c va hv) ?_
+    refine FailsWith.after_nil (reads_int32 c cnt h32) ?_
+    simp only [h, if_true]; exact FailsWith.fail _
+  · unfold skipCS; simp only [P.bind_def]
+    rw [List.append_assoc]
+    refine FailsWith.after (reads_secExpect 4 (by omega)) ?_
+    refine FailsWith.after (reads_skipVA c va hv) ?_
+    refine FailsWith.after_nil (reads_int32 c cnt h32) ?_
+    simp only [h, if_true]; exact FailsWith.fail _
+
+/-- a negative column count in the table metadata (repair F22; no table-level entries before it) -/
+theorem negative_tm_column_count (c : Cfg) (cnt : Int) (h32 : isInt32 cnt) (h : cnt < 0) :
+    FailsWith (readTM c) (sec 2 ++ le c 0 ++ le c cnt) .invalidSize := by
+  unfold readTM; simp only [P.bind_def]
+  rw [List.append_assoc]
+  refine FailsWith.after (reads_secExpect 2 (by omega)) ?_
+  refine FailsWith.after (reads_int32 c 0 (by decide)) ?_
+  simp only [show ¬ ((0 : Int) < 0) by omega, if_false, Int.toNat_zero, readMany]
+  have hrest : ∀ (es : List MdEntry), FailsWith (P.bind (readInt32 c) fun colCnt =>
+      if colCnt < 0 then P.fail Status.invalidSize
+      else P.bind (alloc c (colCnt * 8)) fun _ => P.bind (remapErr Status.oom (readInt32 c)) fun mdCnt =>
+        if mdCnt < 0 then P.fail Status.invalidSize
+        else P.bind (alloc c (mdCnt * 8)) fun _ => P.bind (readMany mdCnt.toNat (readNameRow c)) fun rows =>
+          P.bind (readMany colCnt.toNat (readColumn c rows Md.empty)) fun cols =>
+            P.pure (⟨⟨es, false⟩, cols.map Md.freeze⟩ : TM)) (le c cnt) .invalidSize := by
+    intro es
+    refine FailsWith.after_nil (reads_int32 c cnt h32) ?_
+    simp only [h, if_true]; exact FailsWith.fail _
+  have := FailsWith.after (bs := []) (Reads.pure ([] : List MdEntry)) (f := fun es => P.bind (readInt32 c) fun colCnt =>
+      if colCnt < 0 then P.fail Status.invalidSize
+      else P.bind (alloc c (colCnt * 8)) fun _ => P.bind (remapErr Status.oom (readInt32 c)) fun mdCnt =>
+        if mdCnt < 0 then P.fail Status.invalidSize
+        else P.bind (alloc c (mdCnt * 8)) fun _ => P.bind (readMany mdCnt.toNat (readNameRow c)) fun rows =>
+          P.bind (readMany colCnt.toNat (readColumn c rows Md.empty)) fun cols =>
+            P.pure (⟨⟨es, false⟩, cols.map Md.freeze⟩ : TM)) (hrest [])
+  simpa using this
+
 /-! ### flags, type ids, encoding ids -/
 
 /-- a presence flag other than 0/1 on a table-level entry -/
